@@ -493,3 +493,11 @@ Fixpoint wf_node (n : node) : bool :=
   | Inner _ k cs =>
       match k, cs with KNot, [] => false | _, _ => true end && forallb wf_node cs
   end.
+
+(* actions configured in a tree are built with Answer(code, kind): never marked implicit *)
+Definition explicit_actions (t : tree) : bool := forallb (fun a => negb (aimplicit a)) (actions t).
+
+(* the observable part of an answer *)
+Definition result (a : answer) : code * N * bool := (acode a, akind a, aimplicit a).
+
+Definition is_real (a : att) : bool := match a with Real => true | Fake => false end.
